@@ -39,7 +39,7 @@ def plan(tier):
                 'values under each policy; every (identity x object x addressing operation) attempted '
                 'after random multi-client history steps; a cell is (probe, object type, policy shape, '
                 'identity class, table decision, outcome)',
-        'min_monitor': {'policy_files_loaded': 10, 'attempts_not_granted': 2000, 'denials_compared_with_never_issued': 2000,
+        'min_monitor': {'policy_files_loaded': 10, 'monitor_attempts_not_granted': 2000, 'attempts_not_granted': 2000, 'denials_compared_with_never_issued': 2000,
                         'locates_checked': 50, 'policies_replaced_at_run_time': 20, 'concurrent_foreign_items_checked': 50,
                         'concurrent_yields_injected': 500},
         'assumptions': ['kv/model.py:granted is the most permissive reading of the property '
@@ -50,7 +50,8 @@ def plan(tier):
 
 def cases(tier, seed):
     n = 24 if tier == "quick" else 320
-    return [{'hist': i} for i in range(n)] + [{'conc': i} for i in range(16 if tier == 'quick' else 160)]
+    return ([{'hist': i} for i in range(n)] + [{'conc': i} for i in range(16 if tier == 'quick' else 160)] +
+            [{'monitor': i} for i in range(64 if tier == 'quick' else 640)])
 
 
 def rows_of(dump):
@@ -334,9 +335,73 @@ def run_concurrent(ctx, case):
             srv.close()
 
 
+class _Quiet(object):
+    """What the C18 bench reports about the policy store itself is C18's business."""
+    def __getattr__(self, name):
+        return lambda *a, **k: None
+
+
+def run_monitor(ctx, case):
+    """The definitions in force as an operator changes them: the server's own policy directory monitor (one scan at a time,
+    as its loop does) over a directory in which JSON policy files are written, edited, replaced by invalid documents and
+    removed, several files defining the same names.  What the files say after each scan (latest successfully loaded
+    definition of a name among the files that still exist; none if no file defines it) is the grant table; after every
+    scan Get, GetAttributes and Locate by the owner, another user and a group member on objects under those names must
+    not succeed where that table does not grant."""
+    from kv.checks import c18
+    rng = ctx.rng()
+    rig.install_clock(rig.VClock(step=0))
+    with rig.scratch_dir() as d:
+        b = c18.Bench(_Quiet(), d)
+        srv = rig.Server(d + '/db.sqlite', policies=b.store)
+        try:
+            objs = {}
+            for pname in ('X', 'Y'):
+                o = store.register(srv, 'sym', 'alice', rng, policy=pname, names=['mon-' + pname], state='pre', real_keys=False)
+                if o is None:
+                    ctx.unsure('could not register an object under policy %s' % pname)
+                    return
+                objs[pname] = o
+            # long histories, mostly valid documents that define the same names again and again in different files (what is in
+            # force then depends on the whole order of loads and removals), now and then an invalid or empty one
+            menu = ['X1'] * 4 + ['XY'] * 3 + ['Y1'] + c18.QUICK_ALPHABET
+            for step in range(rng.randrange(16, 40)):
+                for _ in range(1 if rng.random() < 0.7 else rng.randrange(2, 4)):
+                    f = rng.choice(c18.FILES)
+                    if rng.random() < 0.35:
+                        b.remove(f)
+                    else:
+                        b.write(f, rng.choice(menu))
+                b.scan()
+                ctx.count('monitor_scans')
+                table = dict(b.builtin)
+                table.update(b.model.store())
+                for pname, o in objs.items():
+                    for ident in (('alice', None), ('bob', None), ('carol', ['g1']), ('bob', [])):
+                        for opname, op, polop in (('get', op_get(o.uid), O.GET), ('get_attributes', op_get_attributes(o.uid), O.GET_ATTRIBUTES),
+                                                  ('locate', op_locate([rig.attr(A.NAME, name_value('mon-' + pname))]), O.LOCATE)):
+                            ok = model.granted(table, pname, ident, 'alice', E.ObjectType.SYMMETRIC_KEY, polop)
+                            r = srv.send([op], ident, (1, 2))
+                            ctx.ev()
+                            ctx.count('monitor_attempts')
+                            happened = r.error is None and r.ok() and (opname != 'locate' or o.uid in r.uids())
+                            ctx.cell('monitor', opname, 'granted' if ok else 'not-granted', 'happened' if happened else 'refused')
+                            if not ok:
+                                ctx.count('monitor_attempts_not_granted')
+                                if happened:
+                                    ctx.violation('monitor|%s|succeeded' % opname, '%s of the object under policy %r succeeded for %r although '
+                                                  'the policy files in the directory %s' % (opname, pname, ident, 'define no such policy'
+                                                                                          if pname not in b.model.store() else 'do not grant it'),
+                                                  {'trace': b.trace, 'in_force': str(b.model.store().get(pname))[:400]})
+        finally:
+            srv.close()
+
+
 def run_case(ctx, case):
     if 'conc' in case:
         return run_concurrent(ctx, case)
+    if 'monitor' in case:
+        return run_monitor(ctx, case)
     rng = ctx.rng()
     clock = rig.install_clock(rig.VClock(step=1))
     pols, shapes = rand_policies(rng)
